@@ -5,4 +5,3 @@ CONSTANTS
   NInst = 2
   Footprints <- FpEnv
 INVARIANTS TypeOK NoRace Deterministic
-PROPERTIES Finishes
